@@ -32,7 +32,7 @@ func TestVerif_C43(t *testing.T) {
 		vh.Inconclusive(t, "start server: %v", err)
 	}
 	defer env.srv.Stop()
-	vh.Check(t, "resolve", 220, 900, func(rt *rapid.T) {
+	vh.Check(t, "resolve", 220, 700, func(rt *rapid.T) {
 		c43Case(rt, env, rec)
 	})
 }
